@@ -41,9 +41,13 @@ def _fold(chk, state, b, totals):
     for (ln, status, detail) in b[1]:
         if status == "ok":
             parts = detail.split()
-            if len(parts) == 3:
+            if len(parts) >= 3:
                 totals["nt"] += int(parts[1])
                 totals["runs"] += int(parts[2])
+                totals["plans"] = totals.get("plans", 0) + 1
+                totals["wf"] = totals.get("wf", 0) + (1 if "wf=1" in detail else 0)
+                totals["cons"] = totals.get("cons", 0) + (1 if "cons=1" in detail else 0)
+                totals["wf_cons"] = totals.get("wf_cons", 0) + (1 if "wf=1 cons=1" in detail else 0)
 
 
 def run(chk, extra_corpus=None):
@@ -93,6 +97,8 @@ def run(chk, extra_corpus=None):
             "plans_with_nullable_requires": sum(1 for c in b[0] if re.search(r"\(meta \d+ \d+ \d+ t t", c)),
             "plans_with_error_entities": sum(1 for c in b[0] if re.search(r"\(meta \d+ \d+ \d+ [tf] [tf] t", c)),
             "runs": totals["runs"], "runs_changing_data": totals["nt"],
+            "plans_satisfying_plan_wf": totals.get("wf", 0), "plans_with_consistent_fault_free_run": totals.get("cons", 0),
+            "plans_satisfying_both_theorem_hypotheses": totals.get("wf_cons", 0),
         }
 
     def more(st):
